@@ -1,5 +1,6 @@
 """C12 - static strings reach the runtime character for character."""
 import re
+import os
 import sir
 
 RULE = ("C12.escaper: the string-literal emitter is a repo-owned table (no delegation to <str as Debug>::fmt, resolved in MIR); its "
@@ -490,6 +491,126 @@ def check_entities(ctx):
     return obs
 
 
+def dash_to_camel_table(ctx, prefix):
+    """the attribute-name normaliser as an automaton: the loop body is interpreted abstractly (lib/absint.py) for both values of
+    its pending-dash flag and one character of every kind; it must be the automaton of the runtime's dashToCamelCase
+    (`-` is dropped and arms the flag; any other character is copied, upper-cased and disarming the flag when it is armed)"""
+    import absint as ai
+    ob = ctx.ob
+    tc = ctx.tc
+    fs = [f for f in tc.fns if f.name == "dash_to_camel" and f.body]
+    if len(fs) != 1:
+        return [ob(prefix + "/automaton", False, "escape.rs", "dash_to_camel not found")]
+    f = fs[0]
+    loops = [n for n in sir.walk(f.body) if n.get("k") == "for" and any(x.get("k") == "mcall" and x["m"] == "chars" for x in sir.walk(n["e"]))]
+    flags = [n["pat"]["name"] for n in sir.walk(f.body) if n.get("k") == "local" and n["pat"].get("k") == "p_ident" and n.get("init") is not None and n["init"].get("k") == "lit" and n["init"].get("t") == "bool"]
+    if len(loops) != 1 or len(flags) != 1:
+        return [ob(prefix + "/automaton", None, ctx.where(f), "the normaliser is not one loop over the characters with one pending-dash flag: not decided for this tree")]
+    lp, flag = loops[0], flags[0]
+    probs, und = [], False
+    for armed in (False, True):
+        for ch in ("-", "a", "z", "A", "1", "_", ".", "\u00e9"):
+            it = ai.Interp(idx=tc)
+            it.for_value = ch
+            outs = [o for o in it.run({"k": "block", "stmts": [{"k": "expr", "e": lp, "semi": True}]}, {flag: armed, "s": ai.FREE}) if ("for-enter",) in o.events]
+            if not outs or any(o.tainted for o in outs):
+                und = True
+                continue
+            for o in outs:
+                text = "".join(ev[1] for ev in o.events if ev[0] == "write")
+                nxt = o.st.env.get(flag)
+                want_text = "" if ch == "-" else (ch.upper() if armed and ch.isascii() else ch)
+                want_flag = True if ch == "-" else False
+                if text != want_text or nxt is not want_flag:
+                    probs.append("flag %s, character %r: writes %r and leaves the flag %s (the runtime's dashToCamelCase writes %r and leaves it %s)" % (armed, ch, text, nxt, want_text, want_flag))
+    if und and not probs:
+        return [ob(prefix + "/automaton", None, ctx.where(f), "a step of the normaliser depends on a construct outside the interpreted fragment: not decided for this tree")]
+    return [ob(prefix + "/automaton", not probs, ctx.where(f), "; ".join(probs[:3]) if probs else "per character: `-` is dropped and arms the flag, anything else is copied (upper-cased once when the flag is armed) and disarms it - 16 (flag, character kind) steps agree with dashToCamelCase",
+               witness=None if not probs else "`data-col-2x` is delivered under the key `col2X` instead of `col-2x` -> `col2x`")]
+
+
+def wave7_rules(ctx):
+    """obligations added after the seventh wave of seeded changes"""
+    ob = ctx.ob
+    tc = ctx.tc
+    obs = []
+    # (1) inside a string literal no look-ahead runs while blank skipping is still on (peek() skips blanks and comments as a side
+    #     effect): after the opening quote has been consumed every cursor call sits inside parse_off_auto_whitespace
+    fs = [f for f in tc.fns if f.name == "parse_lit_str" and f.body]
+    if fs:
+        f = fs[0]
+        nodes = list(sir.walk(f.body))
+        off = [n for n in nodes if n.get("k") == "mcall" and n["m"] == "parse_off_auto_whitespace"]
+        inside = set(id(x) for o_ in off for a_ in o_["args"] for x in sir.walk(a_))
+        cursor = [(i, n) for i, n in enumerate(nodes) if n.get("k") == "mcall" and sir.expr_str(n["recv"]) == "ps" and n["m"] in ("peek", "peek_n", "peek_str", "peek_chars", "next", "consume_str", "skip_whitespace", "try_parse")]
+        first_next = [i for i, n in cursor if n["m"] == "next" and id(n) not in inside]
+        late = [n["m"] for i, n in cursor if id(n) not in inside and first_next and i > first_next[0]]
+        ok = bool(off) and bool(first_next) and not late
+        obs.append(ob("C12.unescape/no-auto-skip", ok if (off and first_next) else None, ctx.where(f),
+                      "after the opening quote every cursor call runs with blank skipping switched off" if ok else "`ps.%s` runs after the opening quote but outside parse_off_auto_whitespace: it skips blanks and comments that belong to the string" % (late[0] if late else "?"),
+                      witness=None if ok else "'  x' is read as \"x\"; '/* c */y' as \"y\""))
+    # (2) a named entity is scanned to its `;` without a length cap below the longest name of the table
+    pe = [f for f in tc.fns if f.name == "parse_next_entity" and f.body]
+    longest = 0
+    if not longest:
+        # the table lives in the `entities` crate: read its source from the cargo registry the build used, else the WHATWG fact
+        import glob as _glob
+        for src_ in _glob.glob(os.path.expanduser("~/.cargo/registry/src/*/entities-*/src/entities.rs")):
+            try:
+                for m_ in re.finditer(r'entity:\s*"&([A-Za-z0-9]+);"', open(src_).read()):
+                    longest = max(longest, len(m_.group(1)))
+            except OSError:
+                pass
+        longest = longest or 31   # CounterClockwiseContourIntegral
+    if pe:
+        f = pe[0]
+        capped = []
+        for a in sir.walk(f.body):
+            if a.get("k") == "arm" and a.get("guard") is not None and any(y.get("k") == "p_range" and (y.get("lo") or {}).get("v") in ("a", "A") for y in sir.walk(a["pat"])):
+                g = a["guard"]
+                if g.get("k") == "binary" and g["op"] in ("<", "<=") and g["r"].get("k") == "lit" and g["l"].get("k") == "path":
+                    cname = g["l"]["s"]
+                    init = [n["init"].get("v") for n in sir.walk(f.body) if n.get("k") == "local" and n["pat"].get("name") == cname and n.get("init") is not None and n["init"].get("k") == "lit"]
+                    if init:
+                        room = int(g["r"]["v"]) - int(init[0]) + (1 if g["op"] == "<=" else 0) + 1   # + the first letter, at most
+                        capped.append((sir.expr_str(g), room))
+                    else:
+                        capped.append((sir.expr_str(g), None))
+                else:
+                    capped.append((sir.expr_str(g), None))
+        if not capped:
+            obs.append(ob("C12.entity/name-length", True, ctx.where(f), "entity names are scanned letter by letter up to `;` without a length cap (longest name in the table: %d letters)" % longest))
+        else:
+            bad = [c for c in capped if c[1] is not None and longest and c[1] < longest]
+            und = [c for c in capped if c[1] is None or not longest]
+            obs.append(ob("C12.entity/name-length", False if bad else None, ctx.where(f), "entity-name letters are accepted only under `%s`: at most %s letters, the table's longest name has %d" % (capped[0][0], capped[0][1], longest),
+                          witness=None if not bad else "&CounterClockwiseContourIntegral; stays undecoded"))
+    # (3) names listed for the dev tools carry the prefix of the collection they come from
+    ca = [f for f in tc.fns if f.name == "collect_active_attribute_names" and f.body]
+    if ca:
+        f = ca[0]
+        want = {"data": "data:", "marks": "mark:"}
+        bad, n_ = [], 0
+        for lp in sir.walk(f.body):
+            if lp.get("k") != "for":
+                continue
+            src = sir.strip_ref(lp["e"])
+            while src.get("k") == "mcall" and src["m"] in ("iter", "into_iter"):
+                src = sir.strip_ref(src["recv"])
+            fld = src["name"] if src.get("k") == "field" else (src["segs"][-1] if src.get("k") == "path" else None)
+            if fld not in want:
+                continue
+            for x in sir.walk(lp["body"]):
+                fc = sir.format_call(x)
+                if fc and fc[0][0] == "lit" and re.fullmatch(r"\w+:", fc[0][1]):
+                    n_ += 1
+                    if fc[0][1] != want[fld]:
+                        bad.append("%s items are listed as `%s..`" % (fld, fc[0][1]))
+        obs.append(ob("C12.names/collection-prefix", not bad and n_ >= 2, ctx.where(f), "data / mark attributes are listed under their own prefix (%d sites)" % n_ if not bad else "; ".join(bad),
+                      witness=None if not bad else "in dev mode a `mark:x` of a <slot> is reported to the runtime as `data:x`"))
+    return obs
+
+
 def run(ctx):
     ob = ctx.ob
     obs = []
@@ -522,4 +643,13 @@ def run(ctx):
         x = dict(x)
         x["key"] = x["key"].replace("C13.algo", "C12.paths")
         obs.append(x)
+    # .. and so are the names taken from `src` attributes: the extension is removed once (C13.suffix)
+    import rules.c13 as c13
+    if hasattr(c13, "suffix_rule"):
+        for x in c13.suffix_rule(ctx):
+            x = dict(x)
+            x["key"] = x["key"].replace("C13.suffix", "C12.paths/suffix")
+            obs.append(x)
+    obs += wave7_rules(ctx)
+    obs += dash_to_camel_table(ctx, "C12.names")
     return obs
